@@ -979,7 +979,8 @@ impl Gen {
         if self.rng.chance(1, 8) && ops.len() >= 3 {
             // a later link broken: operation k is replaced by an unrelated, in itself valid swap of
             // some funded pool, so its declared input is not what the previous hop produced
-            let k = self.rng.range(1, ops.len() as u64 - 1) as usize;
+            // (checks that compare operations pairwise from the start miss the link into an even index)
+            let k = if self.rng.chance(1, 2) && ops.len() >= 3 { 2 } else { self.rng.range(1, ops.len() as u64 - 1) as usize };
             let p = *self.rng.pick(&funded);
             let n = p.pool_info.asset_denoms.len();
             let i = self.rng.below(n as u64) as usize;
